@@ -40,6 +40,19 @@ def reachable_from(n, edges, xs):
 # ---------------------------------------------------------------------------------------
 # node naming: the same abstract graph under different Python node types
 
+class Opaque(object):
+    """A state that is equal only to itself (identity hash/eq), like an application object."""
+
+    def __init__(self, tag):
+        self.tag = tag
+
+    def __repr__(self):
+        return 'Opaque(%r)' % (self.tag,)
+
+
+_OPAQUE = [Opaque(0), Opaque('one'), object(), (Opaque(3), 3), Opaque(None), (4, Opaque('four')),
+           Opaque(6), Opaque(7), object(), Opaque(9), Opaque(10), Opaque(11)] + [Opaque(i) for i in range(12, 40)]
+
 NAMINGS = {
     'int': lambda i: i,
     'str': lambda i: 's%d' % i,
@@ -47,6 +60,8 @@ NAMINGS = {
     'tuple': lambda i: (i % 2, i),
     'mixed': lambda i: [0, 'one', (2,), 3.5, frozenset([4]), -5, 'six', (7, 7),
                         8, 'nine', (1, 0), 11.25][i % 12] if i < 12 else ('n', i),
+    # states with identity semantics: a copy of one is NOT that state
+    'opaque': lambda i: _OPAQUE[i],
     # string names whose lexicographic and numeric orders differ, of different lengths
     'strlen': lambda i: ['s2', 's10', 's1', 's100', 'a', 'b10', 's02', 'S2', 's', 's1_', 'z', 's11'][i % 12]
     if i < 12 else 's%d' % (i * 7),
